@@ -314,6 +314,31 @@ pub fn worker(ctx: &mut Ctx) {
                 // only words that lex into exactly one Word token at the expected place are judged
                 let single = doc.get_tokens().iter().any(|tk| tk.span.start == ws && tk.span.end == we && matches!(tk.kind, TokenKind::Word(_)));
                 if !single {
+                    // a listed word made only of letters, or of letters around one inner apostrophe
+                    // (O'Connor, nor'easter), is one word token; anything else (hyphens, periods,
+                    // digits, spaces) legitimately lexes into several tokens and is skipped
+                    let letters_only = w.iter().all(|c| c.is_alphabetic());
+                    let apos = w.iter().filter(|c| matches!(c, '\'' | '\u{2019}')).count();
+                    let inner_apostrophe = apos == 1
+                        && w.iter().all(|c| c.is_alphabetic() || matches!(c, '\'' | '\u{2019}'))
+                        && w.first().map(|c| c.is_alphabetic()).unwrap_or(false)
+                        && w.last().map(|c| c.is_alphabetic()).unwrap_or(false);
+                    if (letters_only || inner_apostrophe) && how == "listed" {
+                        let toks: Vec<String> = doc.get_tokens().iter().map(|tk| format!("{}:{:?}", crate::tokmon::kind_name(&tk.kind), t.chars().skip(tk.span.start).take(tk.span.len()).collect::<String>())).collect();
+                        // what breaks the word: the characters that did not become part of a word token
+                        let mut breakers: Vec<String> = doc
+                            .get_tokens()
+                            .iter()
+                            .filter(|tk| !matches!(tk.kind, TokenKind::Word(_)))
+                            .flat_map(|tk| t.chars().skip(tk.span.start).take(tk.span.len()).map(|c| format!("U+{:04X}", c as u32)).collect::<Vec<_>>())
+                            .collect();
+                        breakers.sort();
+                        breakers.dedup();
+                        let sig = format!("listed-word-split@{}/{}", if letters_only { "letters" } else { "apostrophe" }, if breakers.is_empty() { "word-boundary".to_string() } else { breakers.join("+") });
+                        ctx.report.finding("C06", &sig, t.len(), || json!({"text": t, "dialect": dialect_name(*d)}), || {
+                            format!("listed word {:?} is not read as one word: {:?}", text, toks)
+                        });
+                    }
                     ctx.report.count("multi_token_words_skipped", 1);
                     continue;
                 }
